@@ -66,13 +66,13 @@ def run(cfg, eng):
         fus_arg, ius_arg = (lambda k_: f1(k_)), (lambda k_: f2(k_))
         fus_at, ius_at = f1, f2
     elif iv == 'sym':
-        a, b = eng.fresh_int('factor_update_steps'), eng.fresh_int('inv_update_steps')
-        fus_arg, ius_arg = a, b
-        fus_at, ius_at = (lambda t: a), (lambda t: b)
+        fus_c, ius_c = eng.fresh_int('factor_update_steps'), eng.fresh_int('inv_update_steps')
+        fus_arg, ius_arg = fus_c, ius_c
+        fus_at, ius_at = (lambda t: fus_c), (lambda t: ius_c)
     else:
-        a, b = cfg.get('fus', 1), cfg.get('ius', 1)
-        fus_arg, ius_arg = a, b
-        fus_at, ius_at = (lambda t: a), (lambda t: b)
+        fus_c, ius_c = cfg.get('fus', 1), cfg.get('ius', 1)
+        fus_arg, ius_arg = fus_c, ius_c
+        fus_at, ius_at = (lambda t: fus_c), (lambda t: ius_c)
 
     def constrain(t):
         cs = [hp_at['damping'](t) > 0, hp_at['factor_decay'](t) > 0, hp_at['factor_decay'](t) <= 1,
@@ -266,14 +266,21 @@ def run(cfg, eng):
                 eng.oblige('load-never-fails-on-a-state-produced-by-state_dict', o['error'] is None, info={'error': o['error'], 'rank': r})
                 if o['error'] is not None:
                     return None
-                b, a = o['before'], o['after']
-                eng.oblige('restored-step-count', a['steps'] == b['steps'] and a['steps'] == t)
-                same_scalars = all(_same(a['scalars'][k_], b['scalars'][k_]) for k_ in a['scalars'])
-                eng.oblige('restored-scalar-hyperparameters', same_scalars, info={'after': str(a['scalars'])[:200]})
-                if op != 'ckpt-nofactors':
+                bef, aft = o['before'], o['after']
+                eng.oblige('restored-step-count', aft['steps'] == bef['steps'] and aft['steps'] == t)
+                pairs_s, struct_ok = [], True
+                for k_ in aft['scalars']:
+                    x, y = aft['scalars'][k_], bef['scalars'][k_]
+                    if x is None or y is None or callable(x) or callable(y):
+                        struct_ok = struct_ok and (x is None) == (y is None)
+                    else:
+                        pairs_s.append((x, y))
+                eng.oblige('restored-scalar-hyperparameters-present', struct_ok, info={'after': str(aft['scalars'])[:200]})
+                eng.oblige_all_eq('restored-scalar-hyperparameters', pairs_s)
+                if op != 'ckpt-nofactors' and bef['factors'][0][0] is not None:
                     eng.oblige_all_eq('restored-factors', [p for li in range(len(specs)) for p in
-                                                          O.pairs(a['factors'][li][0], b['factors'][li][0]) +
-                                                          O.pairs(a['factors'][li][1], b['factors'][li][1])])
+                                                          O.pairs(aft['factors'][li][0], bef['factors'][li][0]) +
+                                                          O.pairs(aft['factors'][li][1], bef['factors'][li][1])])
             if op == 'ckpt-nofactors':
                 for li in range(len(specs)):
                     ref.A[li] = ref.G[li] = None
